@@ -411,6 +411,8 @@ class Interp(object):
             if 'truth' in v.attrs:
                 return v.attrs['truth'](self, v)
             return True
+        if hasattr(v, 'pyvc_truth'):
+            return v.pyvc_truth(self)
         if isinstance(v, CharSet):
             raise EngineError('truth of a CharSet')
         if isinstance(v, Opaque):
@@ -1210,7 +1212,7 @@ class Interp(object):
         raise EngineError('setattr on %r' % (v,))
 
     def eval_Call(self, node, frame):
-        # A-LOG: logging / deprecation helpers are no-ops whose arguments are not evaluated
+        # A-LOG: logging / deprecation helpers are no-ops (their argument expressions are evaluated, see below)
         f = node.func
         if isinstance(f, ast.Name) and f.id == 'implies' and self.ctx.spec and len(node.args) == 2:
             a = self.truth_term(self.eval(node.args[0], frame))
@@ -1229,6 +1231,17 @@ class Interp(object):
                 and f.value.id in ('logger', '_logger', 'logging'):
             self.ctx.collector.dropped_calls.append(
                 '%s:%d %s' % (frame.module.name, node.lineno, f.value.id + '.' + f.attr))
+            # the call itself is a no-op (A-LOG: records are not formatted while the level is disabled), but Python
+            # evaluates its argument expressions eagerly: an exception raised there is real behaviour
+            if not self.ctx.spec:
+                for a in list(node.args) + [kw.value for kw in node.keywords]:
+                    if isinstance(a, (ast.Constant, ast.Name)):
+                        continue
+                    try:
+                        self.eval(a.value if isinstance(a, ast.Starred) else a, frame)
+                    except EngineError as e:
+                        self.ctx.collector.dropped_calls.append(
+                            '%s:%d argument of %s not evaluated: %s' % (frame.module.name, node.lineno, f.value.id + '.' + f.attr, str(e)[:80]))
             return None
         if isinstance(f, ast.Attribute) and f.attr.startswith('pylatexenc_deprecated_'):
             self.ctx.collector.dropped_calls.append(
